@@ -1,6 +1,7 @@
 package c17
 
 import (
+	"bytes"
 	"fmt"
 	"math"
 	"os"
@@ -362,6 +363,86 @@ func TestC17Prop(t *testing.T) {
 		if err := checkValue(v); err != nil {
 			t.Fatalf("%s: %v\nvalue=%+v", typ, err, v.Interface())
 		}
+		// results stay valid while further values are marshalled (a caller keeps the bytes)
+		if rapid.IntRange(0, 2).Draw(t, "batch") == 0 {
+			typ2 := types[rapid.IntRange(0, len(types)-1).Draw(t, "type2")]
+			v2 := genValue(t, typ2, typ2.Name()+"#2", false, &genInfo{kinds: map[string]bool{}})
+			if err := checkBatch(v, v2); err != nil {
+				t.Fatalf("%s then %s: %v\nfirst=%+v\nsecond=%+v", typ, typ2, err, v.Interface(), v2.Interface())
+			}
+		}
+	})
+}
+
+// checkBatch marshals a, then b, and only then uses a's bytes.
+func checkBatch(a, b reflect.Value) error {
+	var wa, wb []byte
+	if err := safe("Marshal", func() (e error) { wa, e = tlv8.Marshal(a.Interface()); return }); err != nil {
+		return err
+	}
+	snap := append([]byte{}, wa...)
+	if err := safe("Marshal", func() (e error) { wb, e = tlv8.Marshal(b.Interface()); return }); err != nil {
+		return nil // judged by checkValue of that value
+	}
+	_ = wb
+	if !bytes.Equal(wa, snap) {
+		return fmt.Errorf("the bytes returned by Marshal for the first value changed when a second value was marshalled")
+	}
+	out := reflect.New(a.Type())
+	if err := safe("Unmarshal", func() error { return tlv8.Unmarshal(wa, out.Interface()) }); err != nil {
+		return fmt.Errorf("first value no longer decodes after a second Marshal: %v", err)
+	}
+	if ok, where := refctl.SemEqual(out, a); !ok {
+		return fmt.Errorf("first value decodes differently after a second Marshal at %s", where)
+	}
+	return nil
+}
+
+// TestC17Concurrent: goroutines marshal and unmarshal their own values at the same time.
+func TestC17Concurrent(t *testing.T) {
+	vals := []interface{}{
+		Scalars{U8: 1, U16: 2, U32: 3, U64: 4, I16: -5, I32: -6, I64: -7, F32: 1.5, B: true, S: "scalars", Bs: fillBytes(300, 1)},
+		rtp.DefaultVideoStreamConfiguration(),
+		rtp.DefaultAudioStreamConfiguration(),
+		TaggedList{Head: 9, Items: []Elem{{1, "a", 2}, {3, "b", 4}}, Tail: 5},
+		BigElemList{Items: []BigElem{{1, fillBytes(400, 2)}, {2, fillBytes(10, 3)}}, After: 1},
+		rtp.SetupEndpointsResponse{SessionId: fillBytes(16, 4), Status: 1, AccessoryAddr: rtp.Addr{IPVersion: 1, IPAddr: "fe80::1", VideoRtpPort: 5000, AudioRtpPort: 5002}, SsrcVideo: -3, SsrcAudio: 77},
+	}
+	reps := 300
+	if stats.Thorough() {
+		reps = 5000
+	}
+	errs := make(chan error, len(vals)*2)
+	for g := 0; g < len(vals)*2; g++ {
+		go func(g int) {
+			v := reflect.ValueOf(vals[g%len(vals)])
+			for i := 0; i < reps; i++ {
+				var w []byte
+				if err := safe("Marshal", func() (e error) { w, e = tlv8.Marshal(v.Interface()); return }); err != nil {
+					errs <- err
+					return
+				}
+				out := reflect.New(v.Type())
+				if err := safe("Unmarshal", func() error { return tlv8.Unmarshal(w, out.Interface()) }); err != nil {
+					errs <- fmt.Errorf("goroutine %d repetition %d: round trip failed while other goroutines marshal: %v", g, i, err)
+					return
+				}
+				if ok, where := refctl.SemEqual(out, v); !ok {
+					errs <- fmt.Errorf("goroutine %d repetition %d: round trip differs at %s while other goroutines marshal", g, i, where)
+					return
+				}
+			}
+			errs <- nil
+		}(g)
+	}
+	for g := 0; g < len(vals)*2; g++ {
+		if err := <-errs; err != nil {
+			stats.Fail("TestC17Concurrent", err.Error(), nil)
+			t.Errorf("%v", err)
+		}
+	}
+	stats.Case(stats.Hash("concurrent", reps), true, []string{"concurrent-marshal"}, func() interface{} {
+		return map[string]interface{}{"goroutines": len(vals) * 2, "repetitions_each": reps}
 	})
 }
 
